@@ -186,7 +186,8 @@ Record obs := {
   ob_validate : bool;          (* workflow.Validate accepted the clone (a sub-object is wrapped into a minimal valid plan) *)
   ob_submit : bool;            (* Workstream.Submit accepted it *)
   ob_go : nat }.               (* Go-side monitors: 0 fine, 1 address ranges overlap, 2 mutating the clone changed the
-                                  original, 3 mutating the original changed the clone, 4 panic, 5 submit left the original changed *)
+                                  original, 3 mutating the original changed the clone, 4 panic, 5 submit left the original changed,
+                                  6 the clone holds a value outside the modelled domain *)
 
 Record case := {
   cs_orig : lobj;
